@@ -41,6 +41,7 @@ var (
 	statusReasonCircuitBreaker           = response.TerminationReasonCircuitBreaker
 	statusReasonRateLimited              = response.TerminationReasonRateLimited
 	statusReasonInvalidEndpoint          = "invalid_endpoint"
+	statusReasonInvalidQuery             = "invalid_query"
 	statusReasonUpgradeAwareHandlerError = "upgrade_aware_handler_error"
 	statusReasonReverseProxyError        = "reverse_proxy_error"
 )
